@@ -367,7 +367,15 @@ example : decE SH.Gen.C14.d_data_model_statshouseApi_query
   of the same type, and the driver's answer must still match; the Go oracle additionally compares the reused object
   field by field with a freshly read one (`tl1-reused-*`, `tl2-reused-*`). -/
 
-/-! ### bucket frames -/
+/-! ### bucket frames
+
+  `frameOf lz x` and `encE d v` are values: functions of their arguments. The Go functions have hidden state the model
+  has no place for (a scratch buffer CompressAndFrame might reuse, the optional shared TL2WriteContext of WriteTL2). That
+  a frame handed to the caller stays what it was while later payloads are compressed, and that the TL2 bytes do not depend
+  on which values went through the same context before, is therefore checked where the state lives: the harness keeps
+  every frame of a case alive across the later CompressAndFrame calls and re-checks it (`frame-changed-after-later-compress`),
+  and writes every TL2 value through a context shared with values of other types, comparing with the fresh-context bytes
+  and with the model's encoding (`tl2-shared-context-differs`, `tl2-write-panic`). -/
 
 theorem deFrame_le32 (n : Nat) (hn : n < 4294967296) (body : Bytes) : deFrame (le32 n ++ body) = some (n, body) := by
   unfold deFrame
